@@ -22,11 +22,12 @@ import (
 
 // Op is one operation of a history.
 type Op struct {
-	K     string        `json:"k"` // push pushself pushmany setlayout reverse swap clone setsrid
+	K     string        `json:"k"` // push pushself pushmany setlayout reverse swap clone setsrid | xpush pushx acc (MultiPolygon only)
 	R     int           `json:"r,omitempty"`
 	Part  *mgeom.Geom   `json:"part,omitempty"`
 	Parts []*mgeom.Geom `json:"parts,omitempty"`
 	I     int           `json:"i,omitempty"`
+	J     int           `json:"j,omitempty"`
 	L     int           `json:"l,omitempty"`
 	S     int           `json:"s,omitempty"`
 	Via   bool          `json:"via_clone,omitempty"` // pushself: take the part from a clone of the receiver
@@ -55,7 +56,7 @@ func (prop) Plan(tier string) []core.Phase {
 func (prop) Describe() core.Description {
 	return core.Description{
 		Level: "exploration",
-		Rule: "A scenario is a receiver kind (Polygon, MultiPoint, MultiLineString, MultiPolygon, GeometryCollection), a layout (XY, XYZ, XYM, XYZM, Layout(5), Layout(6)) and a history of up to 40 operations on two receivers: Push of a generated part (empty with a per-run probability: empty ring/line/point, polygon without rings, polygon with empty rings; built through New*Flat, SetCoords or Push), Push of a part of every other layout (must be rejected), Push of a part obtained from the receiver itself or from its clone (self-aliasing), variadic collection Push with a wrong-layout member at any position, SetLayout, Reverse, Swap(A,B), Clone, SetSRID. After every operation both receivers are observed completely. A run is non-trivial when at least two pushes succeeded and the history contains an empty part or a rejected push.",
+		Rule: "A scenario is a receiver kind (Polygon, MultiPoint, MultiLineString, MultiPolygon, GeometryCollection), a layout (XY, XYZ, XYM, XYZM, Layout(5), Layout(6)) and a history of up to 40 operations on two receivers: Push of a generated part (empty with a per-run probability: empty ring/line/point, polygon without rings, polygon with empty rings; built through New*Flat, SetCoords or Push), Push of a part of every other layout (must be rejected), Push of a part obtained from the receiver itself or from its clone (self-aliasing), variadic collection Push with a wrong-layout member at any position, SetLayout, Reverse, Swap(A,B), Clone, SetSRID; for MultiPolygon also polygons that live on (built by ring pushes, pushed into a receiver, taken back out through Polygon(i), then pushed onto again), each checked against its own push history. After every operation both receivers are observed completely. A run is non-trivial when at least two pushes succeeded and the history contains an empty part or a rejected push.",
 		StateMeasure: "distinct (kind, layout, emptiness pattern of the final parts of A, operation-kind sequence) tuples",
 		Assumptions: []string{
 			"part accessors return new objects, so only type, layout and coordinates of a part are compared (for collections the member itself)",
@@ -64,7 +65,7 @@ func (prop) Describe() core.Description {
 		RealComponents: []string{"go-geom root package: Polygon, MultiPoint, MultiLineString, MultiPolygon, GeometryCollection (Push, accessors, Coords, Reverse, Swap, Clone, SetSRID, SetLayout) and the part constructors"},
 		StubComponents: []string{"the caller (seeded operation history, including rejected and self-aliasing operations)"},
 		FaultKinds:     []string{"rejected-push", "rejected-variadic-push", "self-alias-push"},
-		Probes:         []string{"probe:polygon(i)-after->=2-empty-polygons", "probe:push-after-leading-empties", "probe:reject-after-nonempty", "probe:reverse-with-empty-part", "probe:variadic-reject-at-j>0", "probe:swap", "probe:clone", "probe:same-stride-wrong-layout", "probe:empty-part", "probe:layout>4"},
+		Probes:         []string{"probe:polygon(i)-after->=2-empty-polygons", "probe:push-after-leading-empties", "probe:reject-after-nonempty", "probe:reverse-with-empty-part", "probe:variadic-reject-at-j>0", "probe:swap", "probe:clone", "probe:same-stride-wrong-layout", "probe:empty-part", "probe:layout>4", "probe:persistent-polygon-push", "probe:persistent-polygon-pushed-into-receiver", "probe:push-onto-accessor-part"},
 	}
 }
 
@@ -122,6 +123,17 @@ func (prop) Decode(raw []byte) (any, error) {
 				return nil, fmt.Errorf("%s on a collection", op.K)
 			}
 		case "pushself", "setsrid":
+		case "xpush":
+			if s.Kind != mgeom.MPg || op.Part == nil || op.Part.T != mgeom.LR || op.I < 0 || op.I > 1 {
+				return nil, fmt.Errorf("bad xpush")
+			}
+			if err := validPart(op.Part, 0); err != nil {
+				return nil, err
+			}
+		case "pushx", "acc":
+			if s.Kind != mgeom.MPg || op.I < 0 || op.J < 0 || op.J > 1 {
+				return nil, fmt.Errorf("bad %s", op.K)
+			}
 		default:
 			return nil, fmt.Errorf("unknown op %q", op.K)
 		}
@@ -187,8 +199,32 @@ func (prop) Generate(r *prng.Rand, phase string) any {
 			}
 		}
 	}
+	persistent := s.Kind == mgeom.MPg && r.Chance(0.5)
 	for i := 0; i < nops; i++ {
 		op := Op{R: r.Pick(3, 1)}
+		if persistent && r.Chance(0.5) {
+			// polygons that live on: X[0], X[1] are built by ring pushes, pushed
+			// into receivers, taken back out through the accessor, and grow again
+			switch r.Pick(5, 3, 2) {
+			case 0:
+				op.K = "xpush"
+				op.I = r.Intn(2)
+				l := s.L
+				if r.Chance(pWrong) {
+					l = otherLayout()
+				}
+				op.Part = cfg.Gen(r, mgeom.LR, l, 0)
+			case 1:
+				op.K = "pushx"
+				op.I = r.Intn(2)
+			case 2:
+				op.K = "acc"
+				op.I = r.Intn(8)
+				op.J = r.Intn(2)
+			}
+			s.Ops = append(s.Ops, op)
+			continue
+		}
 		k := r.Pick(10, 2, 2, 2, 2, 1, 1, 2)
 		switch k {
 		case 0:
@@ -546,6 +582,44 @@ func (prop) Execute(scAny any, phase string, log *core.Log) core.Result {
 	}
 	names := [2]string{"A", "B"}
 	successes, sawEmpty, sawReject := 0, false, false
+	// persistent polygons (MultiPolygon histories only)
+	var xs [2]*geom.Polygon
+	var xm [2]*mgeom.Geom // model: a Polygon with its rings
+	xalias := [2]int{-1, -1} // receiver whose storage X[k] was sliced from, or -1
+	tainted := [2]bool{}     // a receiver whose accessor-returned part was pushed onto (documented storage sharing)
+	dropAliases := func(r int) {
+		for k := 0; k < 2; k++ {
+			if xalias[k] == r || r < 0 && xalias[k] >= 0 {
+				xs[k], xm[k], xalias[k] = nil, nil, -1
+			}
+		}
+	}
+	checkX := func(after string) bool {
+		for k := 0; k < 2; k++ {
+			if xs[k] == nil {
+				continue
+			}
+			obs, err := mgeom.Observe(xs[k])
+			if err != nil {
+				res.Fail("ill-formed", "ill-formed:persistent-polygon", "persistent polygon X%d after %s is ill-formed: %v", k, after, err)
+				return false
+			}
+			w := xm[k].Clone()
+			w.S, obs.S = 0, 0
+			if d := mgeom.Diff(obs, w); d != "" {
+				res.Fail("part-differs", "part-differs:persistent-polygon", "polygon X%d (built by Push, pushed into / taken from a MultiPolygon, then pushed onto again) after %s is %s, its own push history gives %s: %s", k, after, obs, w, d)
+				return false
+			}
+			for i := range w.P[0] {
+				got, err := mgeom.Observe(xs[k].LinearRing(i))
+				if err != nil || mgeom.Diff(got, &mgeom.Geom{T: mgeom.LR, L: w.L, P: [][][]mgeom.Coord{{w.P[0][i]}}}) != "" {
+					res.Fail("part-differs", "part-differs:persistent-polygon", "X%d.LinearRing(%d) after %s is %v, pushed was %v (%v)", k, i, after, got, w.P[0][i], err)
+					return false
+				}
+			}
+		}
+		return true
+	}
 	var kinds strings.Builder
 	for oi, op := range s.Ops {
 		rv, mv := lib[op.R], mod[op.R]
@@ -555,6 +629,93 @@ func (prop) Execute(scAny any, phase string, log *core.Log) core.Result {
 			kinds.WriteByte(op.K[4])
 		}
 		switch op.K {
+		case "push", "pushself", "pushmany", "reverse", "pushx":
+			dropAliases(op.R) // what was sliced from this receiver may legitimately change now
+		case "swap":
+			dropAliases(-1)
+		}
+		switch op.K {
+		case "xpush":
+			k := op.I
+			if xs[k] == nil {
+				xs[k], xm[k], xalias[k] = geom.NewPolygon(l), &mgeom.Geom{T: mgeom.Pg, L: s.L, P: [][][]mgeom.Coord{{}}}, -1
+			}
+			pm := op.Part.Clone().Norm()
+			pg, err := mgeom.Build(pm)
+			if err != nil {
+				res.Fail("build", "build:"+pm.T, "building ring %s failed: %v", pm, err)
+				return res
+			}
+			before, _ := mgeom.Observe(xs[k])
+			if p := core.Guard(func() { err = xs[k].Push(pg.(*geom.LinearRing)) }); p != "" {
+				res.Fail("panic", "panic:Polygon:"+core.PanicSite(p), "%s: Polygon.Push panicked: %s", after, p)
+				return res
+			}
+			res.Steps++
+			res.Count("probe:persistent-polygon-push", 1)
+			log.Addf("%s X%d layout %d err=%v", after, k, pm.L, err)
+			if pm.L == s.L {
+				if err != nil {
+					res.Fail("push-refused", "push-refused:Polygon", "%s: Push of a matching ring failed: %v", after, err)
+					return res
+				}
+				xm[k].P[0] = append(xm[k].P[0], pm.P[0][0])
+				if xalias[k] >= 0 {
+					// X[k] shares the receiver's flat array: growing it may
+					// overwrite what follows there
+					tainted[xalias[k]] = true
+					res.Count("probe:push-onto-accessor-part", 1)
+					// ... and what any other accessor part of the same receiver sees
+					for j := 0; j < 2; j++ {
+						if j != k && xalias[j] == xalias[k] {
+							xs[j], xm[j], xalias[j] = nil, nil, -1
+						}
+					}
+				}
+			} else {
+				var lm geom.ErrLayoutMismatch
+				if err == nil || !errors.As(err, &lm) {
+					res.Fail("wrong-layout-accepted", "wrong-layout-accepted:Polygon", "%s: Polygon.Push of layout %d into layout %d returned %v", after, pm.L, s.L, err)
+					return res
+				}
+				if afterObs, oerr := mgeom.Observe(xs[k]); oerr != nil || mgeom.Diff(before, afterObs) != "" {
+					res.Fail("rejected-push-changed-receiver", "rejected-push-changed-receiver:Polygon", "%s: the rejected Push changed the polygon", after)
+					return res
+				}
+			}
+		case "pushx":
+			k := op.I % 2
+			if xs[k] == nil || tainted[op.R] {
+				continue
+			}
+			var err error
+			if p := core.Guard(func() { err = rv.mpg.Push(xs[k]) }); p != "" {
+				res.Fail("panic", "panic:MultiPolygon:"+core.PanicSite(p), "%s: Push of X%d panicked: %s", after, k, p)
+				return res
+			}
+			res.Steps++
+			res.Count("probe:persistent-polygon-pushed-into-receiver", 1)
+			log.Addf("%s X%d into %s err=%v", after, k, names[op.R], err)
+			if err != nil {
+				res.Fail("push-refused", "push-refused:MultiPolygon", "%s: Push of X%d failed: %v", after, k, err)
+				return res
+			}
+			mv.Parts = append(mv.Parts, xm[k].Clone())
+			successes++
+		case "acc":
+			if len(mv.Parts) == 0 || tainted[op.R] {
+				continue
+			}
+			i := op.I % len(mv.Parts)
+			var q *geom.Polygon
+			if p := core.Guard(func() { q = rv.mpg.Polygon(i) }); p != "" {
+				res.Fail("panic", "panic:MultiPolygon:"+core.PanicSite(p), "%s: Polygon(%d) panicked: %s", after, i, p)
+				return res
+			}
+			res.Steps++
+			xs[op.J], xm[op.J], xalias[op.J] = q, mv.Parts[i].Clone(), op.R
+			xm[op.J].S = 0
+			log.Addf("%s X%d := %s.Polygon(%d)", after, op.J, names[op.R], i)
 		case "push", "pushself":
 			var pm *mgeom.Geom
 			var pg geom.T
@@ -766,6 +927,7 @@ func (prop) Execute(scAny any, phase string, log *core.Log) core.Result {
 				return res
 			}
 			mod[0], mod[1] = mod[1], mod[0]
+			tainted[0], tainted[1] = tainted[1], tainted[0]
 		case "clone":
 			res.Count("probe:clone", 1)
 			var c *lrecv
@@ -775,7 +937,7 @@ func (prop) Execute(scAny any, phase string, log *core.Log) core.Result {
 			}
 			res.Steps++
 			log.Addf("%s recv %s", after, names[op.R])
-			if !observeAll(&res, s.Kind, "clone of "+names[op.R], c, mv, after) {
+			if !tainted[op.R] && !observeAll(&res, s.Kind, "clone of "+names[op.R], c, mv, after) {
 				return res
 			}
 		case "setsrid":
@@ -796,9 +958,15 @@ func (prop) Execute(scAny any, phase string, log *core.Log) core.Result {
 			log.Addf("%s recv %s srid %d", after, names[op.R], op.S)
 		}
 		for k := 0; k < 2; k++ {
+			if tainted[k] {
+				continue
+			}
 			if !observeAll(&res, s.Kind, names[k], lib[k], mod[k], after) {
 				return res
 			}
+		}
+		if !checkX(after) {
+			return res
 		}
 	}
 	res.Nontrivial = successes >= 2 && (sawEmpty || sawReject)
